@@ -33,16 +33,36 @@ func c16positioned(c *core.Ctx) {
 			continue
 		}
 		ok := false
-		ast.Inspect(d.Decl.Body, func(n ast.Node) bool {
+		// the loop may live in Next or in a helper of the same package; its bound may be the loop
+		// condition or a leading `if s.index >= s.dataSize { return/break }`
+		inspectDeep(c, d, 2, func(_ *core.DeclSite, n ast.Node) bool {
 			fs, isFor := n.(*ast.ForStmt)
-			if !isFor || fs.Cond == nil || core.ExprStr(fs.Cond) != "s.index < s.dataSize" {
+			if !isFor {
 				return true
 			}
-			inc, call := token.NoPos, token.NoPos
+			bound, inc, call := token.NoPos, token.NoPos, token.NoPos
+			if fs.Cond != nil {
+				switch core.ExprStr(ast.Unparen(fs.Cond)) {
+				case "s.index < s.dataSize", "s.dataSize > s.index":
+					bound = fs.Cond.Pos()
+				}
+			}
 			ast.Inspect(fs.Body, func(m ast.Node) bool {
 				switch y := m.(type) {
+				case *ast.IfStmt:
+					cond := core.ExprStr(ast.Unparen(y.Cond))
+					if bound == token.NoPos && (cond == "s.index >= s.dataSize" || cond == "s.dataSize <= s.index" || cond == "!(s.index < s.dataSize)" || cond == "s.index == s.dataSize") && len(y.Body.List) > 0 {
+						switch y.Body.List[len(y.Body.List)-1].(type) {
+						case *ast.ReturnStmt, *ast.BranchStmt:
+							bound = y.Pos()
+						}
+					}
 				case *ast.IncDecStmt:
 					if core.ExprStr(y.X) == "s.index" && y.Tok == token.INC && inc == token.NoPos {
+						inc = y.Pos()
+					}
+				case *ast.AssignStmt:
+					if len(y.Lhs) == 1 && core.ExprStr(y.Lhs[0]) == "s.index" && y.Tok == token.ADD_ASSIGN && core.ExprStr(y.Rhs[0]) == "1" && inc == token.NoPos {
 						inc = y.Pos()
 					}
 				case *ast.CallExpr:
@@ -52,7 +72,7 @@ func c16positioned(c *core.Ctx) {
 				}
 				return true
 			})
-			if inc != token.NoPos && call != token.NoPos && inc < call {
+			if bound != token.NoPos && inc != token.NoPos && call != token.NoPos && bound < inc && inc < call {
 				ok = true
 			}
 			return true
@@ -90,7 +110,31 @@ func c16positioned(c *core.Ctx) {
 				}
 				return false
 			}
-			guarded := underGuard(cs.Stack)
+			// ... or after an early `if s.stack.Len() == 0 { return }` of the same function
+			afterEarlyReturn := func(decl *ast.FuncDecl, at token.Pos) bool {
+				found := false
+				if decl == nil || decl.Body == nil {
+					return false
+				}
+				ast.Inspect(decl.Body, func(m ast.Node) bool {
+					if ifs, ok := m.(*ast.IfStmt); ok && ifs.End() < at {
+						cond := core.ExprStr(ast.Unparen(ifs.Cond))
+						if strings.Contains(cond, "stack.Len() == 0") || strings.Contains(cond, "stack.Len() < 1") {
+							for _, st := range ifs.Body.List {
+								if _, isRet := st.(*ast.ReturnStmt); isRet {
+									found = true
+								}
+							}
+						}
+					}
+					return true
+				})
+				return found
+			}
+			guardedSite := func(stack []ast.Node, decl *ast.FuncDecl, at token.Pos) bool {
+				return underGuard(stack) || afterEarlyReturn(decl, at)
+			}
+			guarded := guardedSite(cs.Stack, cs.Decl, cs.Call.Pos())
 			if !guarded && cs.Decl != nil && cs.Decl.Name.Name != "Next" {
 				// a helper that builds the end-of-input error: every call of it must sit under the guard
 				if self, ok := cs.Pkg.TypesInfo.Defs[cs.Decl.Name].(*types.Func); ok {
@@ -98,7 +142,7 @@ func c16positioned(c *core.Ctx) {
 					for _, cs2 := range c.P.Calls() {
 						if core.Callee(cs2.Pkg, cs2.Call) == types.Object(self) {
 							sites++
-							if !underGuard(cs2.Stack) {
+							if !guardedSite(cs2.Stack, cs2.Decl, cs2.Call.Pos()) {
 								all = false
 							}
 						}
@@ -107,19 +151,6 @@ func c16positioned(c *core.Ctx) {
 						guarded = true
 					}
 				}
-			}
-			if !guarded {
-				// enum: processTail switches on s.stack.Peek() after checking Len
-				ast.Inspect(cs.Decl.Body, func(m ast.Node) bool {
-					if ifs, ok := m.(*ast.IfStmt); ok && strings.Contains(core.ExprStr(ifs.Cond), "stack.Len() == 0") && ifs.End() < cs.Call.Pos() {
-						for _, st := range ifs.Body.List {
-							if _, isRet := st.(*ast.ReturnStmt); isRet {
-								guarded = true
-							}
-						}
-					}
-					return true
-				})
 			}
 			if guarded {
 				c.OKd(R, key, pos, what, "scanner idiom (b): end-of-input error with a non-empty lexeme stack")
